@@ -8,6 +8,8 @@ from ..regions import bound, le
 from ..values import Arr, Unsupported, simplify_scalar
 from .traces import all_traces, syntactic_inventory
 
+CASE_SPLIT = True     # orderings between different grid sizes are analysed case by case (regions.run_under_size_cases)
+
 
 def views_overlap(a, b):
     """may two views of arrays share a cell?  (False only when provably disjoint)"""
